@@ -364,8 +364,8 @@ def run(ctx):
     ctx.run_parallel('shard_inline', extra=(ctx.pick(300, 4000),))
     ctx.run_parallel('shard_wrap', extra=(ctx.pick(400, 5000),))
     if ctx.thorough or os.environ.get('VERIF_FUZZ'):
-        ctx.run_atheris('inline', ctx.pick(300, 3000), guided=True)
-        ctx.run_atheris('wrap', ctx.pick(300, 3000), guided=True)
+        ctx.run_atheris('inline', ctx.pick(300, 1500), guided=True)
+        ctx.run_atheris('wrap', ctx.pick(300, 1500), guided=True)
 
 
 # coverage-guided layer (thorough tier): the Hypothesis strategy under libFuzzer (vlib/fuzz.py, guided mode)
